@@ -44,13 +44,15 @@ def run(ctx):
     follow = [k["deviation"] for k in ctx.known_findings()
               if k.get("status") == "open" and not k.get("fix") and k["deviation"] in model_devs]
     # ---------------------------------------------------------------- M
-    ctx.tlc_mc(SPEC, "MutableFileBuf.tla", "MCMutableFileQuick.cfg" if ctx.quick else "MCMutableFile.cfg",
-               timeout=3600, coverage=not ctx.quick)
-    for cfg, what in (("MCMutableFileOpen.cfg", "the unrepaired deviation Dev_C10_ReadWriteStart"),
-                      ("MCMutableFileAsBuilt.cfg", "the as-built design")):
-        res = ctx.tlc_mc(SPEC, "MutableFileBuf.tla", cfg, timeout=1200, expect_violation=True, deadlock=False)
-        if res["violated"] not in ("SameResults", "BufferRefinesFile", "SizeRefines", "CursorRefines", "NextWriteAtCursor"):
-            ctx.broken("model of %s does not violate the refinement (%s): the deviation model is vacuous" % (what, cfg))
+    # (VERIF_SKIP_M=1: skip the code-independent phase M -- only for mutation self-tests of the binding)
+    if not os.environ.get("VERIF_SKIP_M"):
+        ctx.tlc_mc(SPEC, "MutableFileBuf.tla", "MCMutableFileQuick.cfg" if ctx.quick else "MCMutableFile.cfg",
+                   timeout=3600, coverage=not ctx.quick)
+        for cfg, what in (("MCMutableFileOpen.cfg", "the unrepaired deviation Dev_C10_ReadWriteStart"),
+                          ("MCMutableFileAsBuilt.cfg", "the as-built design")):
+            res = ctx.tlc_mc(SPEC, "MutableFileBuf.tla", cfg, timeout=1200, expect_violation=True, deadlock=False)
+            if res["violated"] not in ("SameResults", "BufferRefinesFile", "SizeRefines", "CursorRefines", "NextWriteAtCursor"):
+                ctx.broken("model of %s does not violate the refinement (%s): the deviation model is vacuous" % (what, cfg))
     # ---------------------------------------------------------------- G
     sdir = ctx.specdir(SPEC)
 
@@ -63,11 +65,11 @@ def run(ctx):
     sets = []
     if ctx.quick:
         sets.append(("bfs2", gen("GenMutableFileD2.cfg", timeout=2400, workers=4)))
-        sets.append(("sim", gen("GenMutableFileSim.cfg", simulate=12, depth=21 * 10 + 1, timeout=1800, workers=1)))
+        sets.append(("sim", gen("GenMutableFileSim.cfg", simulate=6, depth=21 * 10 + 1, timeout=1800, workers=1)))
     else:
         sets.append(("bfs2", gen("GenMutableFileD2Wide.cfg", timeout=7200, workers=8)))
         sets.append(("bfs3", gen("GenMutableFileD3.cfg", timeout=7200, workers=8)))
-        sets.append(("sim", gen("GenMutableFileSim.cfg", simulate=100, depth=21 * 15 + 1, timeout=7200, workers=1)))
+        sets.append(("sim", gen("GenMutableFileSim.cfg", simulate=60, depth=21 * 15 + 1, timeout=7200, workers=1)))
     binp = ctx.go_build(PKG, [PKG + "/zz_verif_C10_test.go"])
 
     def nontrivial(b):
